@@ -7,6 +7,8 @@ import (
 	"go/token"
 	"go/types"
 	"math/big"
+	"regexp"
+	"sort"
 	"strings"
 )
 
@@ -844,7 +846,43 @@ func (c *FnCtx) bitop(env *Env, op token.Token, l, r Val, resT types.Type, n ast
 		lo, hi := intRange(bits, signed)
 		c.facts = append(c.facts, and(app("<=", bigLit(lo), t), app("<=", t, bigLit(hi))))
 	}
+	if op == token.OR && !strings.Contains(t, "!q") {
+		// packing of bit fields: OR of a multiple of 2^k with a value below 2^k is their sum.
+		// Stated for every k that occurs as a literal shift in the operands.
+		for _, k := range literalShifts(l.T + " " + r.T) {
+			p := pow2(k).String()
+			c.facts = append(c.facts,
+				implies(and(eq(app("mod", l.T, p), "0"), app("<=", "0", l.T), app("<=", "0", r.T), app("<", r.T, p)), eq(t, app("+", l.T, r.T))),
+				implies(and(eq(app("mod", r.T, p), "0"), app("<=", "0", r.T), app("<=", "0", l.T), app("<", l.T, p)), eq(t, app("+", l.T, r.T))))
+		}
+	}
 	return Val{T: t, Typ: resT}
+}
+
+var mulLitRe = regexp.MustCompile(` (\d+)\)|\(\* (\d+) `)
+
+// literalShifts: the exponents k of literal multiplications by 2^k (left shifts by a constant)
+// occurring in a term.
+func literalShifts(term string) []int {
+	seen := map[int]bool{}
+	var out []int
+	for _, m := range mulLitRe.FindAllStringSubmatch(term, -1) {
+		lit := m[1]
+		if lit == "" {
+			lit = m[2]
+		}
+		v, ok := new(big.Int).SetString(lit, 10)
+		if !ok || v.Sign() <= 0 || v.BitLen() > 64 {
+			continue
+		}
+		k := v.BitLen() - 1
+		if k >= 1 && new(big.Int).Lsh(big.NewInt(1), uint(k)).Cmp(v) == 0 && !seen[k] {
+			seen[k] = true
+			out = append(out, k)
+		}
+	}
+	sort.Ints(out)
+	return out
 }
 
 func maskBits(k *big.Int) int {
